@@ -39,13 +39,19 @@ def full_alphabet(cA, cB):
          [['seed', 3]]]
     if 't2' in (cA, cB):
         A.append([['tempo', 't2', 4.0]])
+    if cA == 't2':
+        # the routine re-bases the clock it is running on
+        # (only backwards: moving beats forward puts pending tasks into the
+        # logical past, below time zero in NRT, which has no meaning there)
+        A.append([['beats', 't2', 0.0]])
     if cA != cB:
         # routines on different clocks run on different threads in RT: the
         # order of their actions at one logical instant is not defined, so
         # programs in which A acts on B (or on B's clock) are generated only
         # for routines sharing a clock
         A = [it for it in A if it[0][0] not in (
-            'play', 'pause', 'resume', 'stop', 'wait', 'set', 'tempo')]
+            'play', 'pause', 'resume', 'stop', 'wait', 'set', 'tempo')
+             or (it[0][0] == 'beats' and cB != 't2')]
     return A
 
 
